@@ -12,7 +12,7 @@ else
   git -C "$d" apply "$spec"
 fi
 if [ -n "$RUN_TESTS" ]; then
-  (cd "$d" && /venv/bin/python -m pytest -q -p no:cacheprovider --continue-on-collection-errors -x -q 2>&1 | tail -1)
+  (cd "$d" && /venv/bin/python -m pytest -q -p no:cacheprovider --continue-on-collection-errors 2>&1 | tail -1)
 fi
 for c in "$@"; do
   VERIF_REPO="$d" /verif/check "$c" --tier "${TIER:-quick}" 2>&1 | grep -E "^VIOLATION|^KNOWN|^C[0-9]+ tier|CHECK-ERROR|^  class" | cut -c1-220 | head -${LINES_MAX:-8}
